@@ -9,7 +9,7 @@ PROPERTY = 'C06'
 RULE = ('cases = one call of mixed_rank_graph (or compute_batch_ranking) on a frame with k columns: exhaustive k<=5 (quick) / k<=6 '
         '(thorough) x every label position x {target-only, pairwise} x {scoring, 3mr, Constant} x every cap in 1..|list|+1; random '
         'k in 1..40 with hostile column names (spaces, unicode, names containing " AND ", names equal up to case, relation columns '
-        '"a AND_REL b"), label anywhere and under other names, caps {1, 2, |set|-1, |set|, |set|+k, 10^6}. The sampler is wrapped to '
+        '"a AND_REL b", base features together with their own " AND " interaction names), label anywhere and under other names, caps {1, 2, |set|-1, |set|, |set|+k, 10^6}. The sampler is wrapped to '
         'record the candidate list offered and the pool records the tasks actually evaluated. distinct = (k, label position, mode, '
         'heuristic class, cap regime, names hash); non-trivial = at least 2 columns.')
 REQUIRED = {'both-orientations': 100, 'requested-set': 100, 'cap-before-evaluation': 50, 'names-in-frame': 100, 'constant-once': 20}
@@ -213,6 +213,15 @@ def shard_random(sh, part, parts):
                 rels.append('%s AND_REL %s' % (a, b))
             names = names[:len(names) - len(rels)] + rels
             rng.shuffle(names)
+        if t % 5 == 4 and hclass != '3mr':
+            # names as the tool builds them itself: base features plus their ' AND ' interactions (pairs such as
+            # ('a AND b', 'c') and ('a', 'b AND c') must stay distinct)
+            base = ['a', 'b', 'c', 'd'][:rng.choice([3, 3, 4])]
+            names = base + [' AND '.join(c) for c in itertools.combinations(base, 2)]
+            if rng.random() < 0.5:
+                names += [' AND '.join(c) for c in itertools.combinations(base, 3)]
+            rng.shuffle(names)
+            k = len(names) + 1
         cols = list(names)
         cols.insert(rng.randrange(len(cols) + 1), label)
         target_only = rng.random() < 0.5
